@@ -223,7 +223,9 @@ func vpH_c13_steps() {
 		want, noSteps = nil, true
 	}
 	p := new(Pipeline)
+	docBefore := vpSnapshot(doc)
 	err := ordered.Unmarshal(doc, p)
+	vpAssert(vpUnchanged(doc, docBefore), "parsing does not rewrite the document it was given (fallback steps hold their entries verbatim)")
 	usable := err == nil || warning.Is(err)
 	if _, isStr := doc.(string); isStr || doc == nil {
 		// neither a mapping nor a list: a hard error, or a usable empty pipeline - never a panic
